@@ -64,3 +64,16 @@ Proof.
   rewrite msgpack_slice_trial_verdict.
   rewrite (translatable_msgpack_accepted utf8 inp d docs m tl H E Hm). reflexivity.
 Qed.
+
+(* xt recognises its own MessagePack output: the encoding of an array or a map,
+   whatever follows it, is detected as MessagePack - with the trial concrete, no premise *)
+From XtModel Require Import MsgpackCodecProofs.
+
+Theorem own_msgpack_output_detected (sched : nat -> nat) (cutoff : nat) (toml_parses utf8 : bytes -> bool) (tj ty : trial)
+        (v : mval) (tail : bytes) :
+  encodable utf8 v -> MsgpackCodecProofs.is_collection v = true ->
+  snd (detect sched cutoff toml_parses (msgpack_slice_trial utf8) tj ty (start (HSlice (enc_val v ++ tail)))) = Ok (Some Msgpack).
+Proof.
+  intros He Hc. rewrite detect_slice_order. unfold cascade.
+  rewrite msgpack_slice_trial_verdict, (own_output_matches utf8 v tail He Hc). reflexivity.
+Qed.
